@@ -71,7 +71,7 @@ def family(base, rng):
         "ty": [base["ty"] ^ 1, base["ty"] ^ 2, 0x34, 0x36, 0x10, (base["ty"] + 0x80) % 256],
         "event": [base["event"] + 1, base["event"] ^ 0x80000000, base["event"] ^ 0x100, rng.randrange(2 ** 32)],
         "haspts": [1 - base["haspts"]],
-        "ptsv": [base["ptsv"] + 1, base["ptsv"] ^ (1 << 32), base["ptsv"] ^ (1 << 31), rng.randrange(2 ** 33)],
+        "ptsv": [(base["ptsv"] + 1) % 2 ** 33, base["ptsv"] ^ (1 << 32), base["ptsv"] ^ (1 << 31), rng.randrange(2 ** 33)],
         "segnum": [(base["segnum"] + 1) % 256, base["segnum"] ^ 0x80],
         "segexp": [(base["segexp"] + 1) % 256, base["segexp"] ^ 0x80],
         "hassub": [1 - base["hassub"]],
